@@ -133,6 +133,10 @@ SPEC = dict(
                 "x every event of depth <=2 over {a,b} x 9 states; rule pairs / triples over reduced universes with suppression, "
                 "scopes, priorities; every 2-event history over 8 kinds sharing / not sharing the event name"),
     trusted_base=[
+        "value equality: the classes are assigned by the harness with its own structural comparison (c01Equal: element by element, nil and empty "
+        "lists/maps alike, no reflect.DeepEqual) over a fixed universe of values; a kind of value outside that universe (pointer, func, struct) is not covered",
+        "the cache key: a regenerated three-valued fact (Gen.C01.cacheKey, theorem cacheKey_not_refuted) reads the key expression of IsTriggering; "
+        "'established' rests on the claim that fmt's %q rendering of a []string is injective (not proved, sampled by the corpus-cache-key family)",
         "regular expressions are ids in the model; the truth table for the (regex, value) pairs of a case is computed by Go's regexp on fmt.Sprint(value)",
         "values are equality classes (Go == for hashable values, reflect.DeepEqual for lists/maps), assigned by the harness",
         "fmt.Sprintf(\"%q\", kind) is injective in the kind (the model keys the trigger cache by the kind itself); tested with segments containing quotes and blanks",
@@ -149,6 +153,11 @@ SPEC = dict(
         "processes an event that runs nothing, and the next AddRule drops the cache anyway) — a mutant removing it is not caught and cannot be; "
         "likewise a cached 'triggering' for an event that fires nothing (the property leaves the pre-check free there)",
         "not reached on purpose: getters eventProcessor.ID, UnitTestResetIDs (no clause depends on them); ECAL function values as statematch values",
+        "event and rule objects: Rule.Action non-nil (a nil Action is a nil call in a worker = process death); rule and event values are not mutated "
+        "after AddRule / AddEvent by the caller (at ECAL level the statematch pattern is copied at declaration — fixes/C01-statematch-values-copied.patch; "
+        "an event state map is shared with the worker); AddRule / Reset only on a stopped processor (the harness finishes it first; Go refuses otherwise)",
+        "concurrency: the theorems are about sequential semantics; workers 1..16 and AddEvent from many goroutines are exercised by the tie, the trigger "
+        "cache by a stress run (16 goroutines x fresh kinds; -race build in the thorough tier)",
         "theorems: events are processed one at a time (AddEvent = pre-check + ProcessEvent atomically); concurrency of workers is only exercised by the tie",
     ],
     decode=decode,
@@ -165,7 +174,7 @@ META = dict(
                 "(match_eq_spec, bitmask_faithful, stateMatch_perm); ProcessEvent determines a duplicate-free list whose name set is exactly "
                 "Spec.fires and calls the actions of all of it when failOnFirstError is off or no action fails, else of the prefix up to and "
                 "including the first failing rule (processEvent_runs; the flag is ON in every ECAL runtime, interpreter/provider.go); "
-                "IsTriggering over-approximates Match and depends on the kind only, the cache is dropped by AddRule/Reset, hence a firing "
+                "IsTriggering over-approximates Match, the cache (keyed injectively by the kind: regenerated fact cacheKey_not_refuted) is dropped by AddRule/Reset, hence a firing "
                 "event is never skipped after any history (cache_sound_ops, fired_event_not_skipped_ops); the scope trie answers with the flag "
                 "of the longest defined prefix (processEvent_exact_scope). Spec.fires ranges over the rules AddRule accepted "
                 "(indexed_characterised: a rule with kind and scope match whose name no earlier accepted rule has; a refused rule does not block its name since b2c3167). Hypotheses: Rule.WF (kind "
@@ -174,7 +183,7 @@ META = dict(
                 "into the model, not extracted."),
     level_note=("Trusted: Lean kernel + propext/Classical.choice/Quot.sound; the correspondence harness; Go's regexp (truth table); "
                 "value equality classes computed by the harness. Readings: a self-suppressing rule never runs (spec follows the code, "
-                "property text says 'another'); known finding statematch-nonstring-key (see known_findings.txt)."),
+                "property text says 'another'); known findings statematch-nonstring-key and scope-lost-in-nested-instance-state (see known_findings.txt)."),
 )
 
 
